@@ -14,7 +14,7 @@ MODULE = 'EmsModel.Props.C03'
 DRIVER = 'C03'
 REQUIRED = [
     'Ems.C03.wind_ravel', 'Ems.C03.moveToEnd_get', 'Ems.C03.moveToEnd_dims', 'Ems.C03.moveToEnd_missing',
-    'Ems.C03.ravel_collision_refused', 'Ems.C03.ravel_get', 'Ems.C03.wind_get', 'Ems.C03.no_grid_refused', 'Ems.C03.kind_first_match',
+    'Ems.C03.ravel_collision_refused', 'Ems.C03.ravel_get', 'Ems.C03.wind_get', 'Ems.C03.ravel_wind', 'Ems.C03.findUnused_fresh', 'Ems.C03.no_grid_refused', 'Ems.C03.kind_first_match',
 ]
 RULE = ('(a) utils level: random tagged arrays of rank 1-5 in random dimension order through '
         'move_dimensions_to_end / ravel_dimensions / wind_dimension / find_unused_dimension, incl. absent '
